@@ -61,6 +61,36 @@ pub struct SpawnCase {
     /// the exit, then wait, then try_wait; 2 = one immediate try_wait, then wait twice
     #[serde(default)]
     pub wait_mode: u8,
+    /// with stdin = MakePipe and no other pipe: the parent writes through `child.stdin.as_mut()` and
+    /// leaves the pipe inside the `Child` when it calls `wait` (the helper reads its stdin to the end)
+    #[serde(default)]
+    pub keep_stdin: bool,
+}
+
+/// Definitive dead-lock of `wait` against a child that reads its standard input to the end: the
+/// waiting thread sits in wait4 while the child sits in read(0), three samples 200 ms apart. The only
+/// write end of that pipe belongs to the waiting process, so nothing can end this. The child is then
+/// killed (so that the harness goes on) and the fact is reported by the caller.
+fn stdin_deadlock_watch(pid: i32, waiter_tid: i32, done: std::sync::Arc<std::sync::atomic::AtomicBool>, fired: std::sync::Arc<std::sync::atomic::AtomicBool>) -> std::thread::JoinHandle<()> {
+    use std::sync::atomic::Ordering::SeqCst;
+    std::thread::spawn(move || {
+        let mut hits = 0;
+        while !done.load(SeqCst) {
+            std::thread::sleep(std::time::Duration::from_millis(200));
+            let child = std::fs::read_to_string(format!("/proc/{pid}/syscall")).unwrap_or_default();
+            let me = std::fs::read_to_string(format!("/proc/self/task/{waiter_tid}/syscall")).unwrap_or_default();
+            if child.starts_with("0 0x0 ") && me.starts_with("61 ") {
+                hits += 1;
+            } else {
+                hits = 0;
+            }
+            if hits >= 3 && !done.load(SeqCst) {
+                fired.store(true, SeqCst);
+                unsafe { libc::kill(pid, libc::SIGKILL) };
+                return;
+            }
+        }
+    })
 }
 
 fn helper_path() -> std::path::PathBuf {
@@ -438,7 +468,12 @@ fn run_case(c: &SpawnCase, root: &std::path::Path, rep: &mut CaseReport) -> Resu
         match (result, &expect_now) {
             (Ok(mut child), None) => {
                 // interact with pipes first so the helper can finish
-                if c.stdio[0] == 3 {
+                let keep_stdin = c.keep_stdin && c.stdio[0] == 3 && c.stdio[1] != 3 && c.stdio[2] != 3 && c.wait_mode == 0;
+                if keep_stdin {
+                    let p = child.stdin.as_mut().ok_or_else(|| Failure::new("spawn|missing stdin pipe", "MakePipe requested but Child.stdin is None".to_string()))?;
+                    p.write_all(b"IN").map_err(|e| Failure::new("spawn|stdin pipe write failed", format!("{e}")))?;
+                    rep.class("wait-called-with-the-stdin-pipe-still-in-the-Child");
+                } else if c.stdio[0] == 3 {
                     let mut p = child.stdin.take().ok_or_else(|| Failure::new("spawn|missing stdin pipe", "MakePipe requested but Child.stdin is None".to_string()))?;
                     p.write_all(b"IN").map_err(|e| Failure::new("spawn|stdin pipe write failed", format!("{e}")))?;
                     drop(p);
@@ -477,7 +512,18 @@ fn run_case(c: &SpawnCase, root: &std::path::Path, rep: &mut CaseReport) -> Resu
                 if let Some(p) = polled {
                     ensure!(p == code << 8 || p == code, "Child::try_wait|wrong exit status", "try_wait() returned Some({p}), the child exited with code {code}");
                 }
-                let status = no_panic("Child::wait", || child.wait())?.map_err(|e| Failure::new(if polled.is_some() { "Child::wait|error after try_wait reported the exit" } else { "Child::wait|error" }, format!("{e} (try_wait before: {polled:?})")))?;
+                let done = std::sync::Arc::new(std::sync::atomic::AtomicBool::new(false));
+                let fired = std::sync::Arc::new(std::sync::atomic::AtomicBool::new(false));
+                let watch = if keep_stdin { Some(stdin_deadlock_watch(pid, unsafe { libc::gettid() }, done.clone(), fired.clone())) } else { None };
+                let waited = no_panic("Child::wait", || child.wait());
+                done.store(true, std::sync::atomic::Ordering::SeqCst);
+                if let Some(h) = watch {
+                    let _ = h.join();
+                }
+                if fired.load(std::sync::atomic::Ordering::SeqCst) {
+                    return Err(Failure::new("Child::wait|never-returns|child waits for the end of a stdin pipe the waiting parent still holds", format!("stdin = MakePipe, 2 bytes written through child.stdin, pipe left in the Child; wait() sat in wait4 while the child (pid {pid}) sat in read(0) - the only write end of that pipe is the parent's, so neither can go on (the harness killed the child; wait then returned {waited:?})")));
+                }
+                let status = waited?.map_err(|e| Failure::new(if polled.is_some() { "Child::wait|error after try_wait reported the exit" } else { "Child::wait|error" }, format!("{e} (try_wait before: {polled:?})")))?;
                 ensure!(status == code << 8 || status == code, "Child::wait|wrong exit status", "wait() returned {status}, the child exited with code {code}");
                 if let Some(p) = polled {
                     ensure!(p == status, "Child::wait|differs from try_wait", "try_wait reported {p}, wait afterwards {status}");
@@ -756,7 +802,7 @@ pub fn case_strategy() -> impl Strategy<Value = SpawnCase> {
         .prop_map(|(prog, args, env, cwd, pgroup, ids, stdio, closures, exit_code, fault, (closed, wait_mode))| {
             // the closed-descriptor knob is combined only with fault-free runs of the helper
             let closed = if fault == Fault::None && prog == 0 { closed } else { [false; 3] };
-            SpawnCase { prog, args, env, cwd, pgroup, ids, stdio, closures, exit_code, fault, closed, wait_mode }
+            SpawnCase { prog, args, env, cwd, pgroup, ids, stdio, closures, exit_code, fault, closed, wait_mode, keep_stdin: exit_code % 2 == 0 }
         })
 }
 
@@ -853,6 +899,25 @@ fn inherit_strategy() -> impl Strategy<Value = InheritCase> {
 }
 
 pub fn run(ctx: &Ctx) {
+    // the pipe configurations in which `wait` is called with the stdin pipe still inside the Child
+    if let Some(c) = ctx.replay_case::<SpawnCase>("spawn-kept-stdin") {
+        ctx.run_one("spawn-kept-stdin", &c, || check_spawn(ctx, &c));
+    } else if !ctx.is_replay() {
+        let mut k = 0u32;
+        for out in [0u8, 1, 2] {
+            for err in [0u8, 1] {
+                for exit_code in [0u8, 6] {
+                    if k % ctx.nworkers == ctx.worker {
+                        let c = SpawnCase { prog: 0, args: vec![], env: None, cwd: 0, pgroup: false, ids: false, stdio: [3, out, err], closures: vec![], exit_code, fault: Fault::None, closed: [false; 3], wait_mode: 0, keep_stdin: true };
+                        if !ctx.run_one("spawn-kept-stdin", &c, || check_spawn(ctx, &c)) {
+                            break;
+                        }
+                    }
+                    k += 1;
+                }
+            }
+        }
+    }
     ctx.run_prop("spawn", ctx.cases(250, 8000), case_strategy(), |c| check_spawn(ctx, c));
     // only the `start` binary drives the start-up carrier
     let me = std::env::current_exe().ok().and_then(|p| p.file_name().map(|n| n.to_string_lossy().to_string())).unwrap_or_default();
